@@ -614,6 +614,8 @@ def const_term(o):
         return const_term(o['promoted_consts'][0])
     name = o.get('name')
     ty = o.get('ty', '?')
+    if 'variant' in o:
+        return ('const', 'variant', ty + '::' + o['variant'], None)
     if 'f' in o:
         return ('const', 'f64' if ty == 'f64' else ty, float(o['f']), name)
     if 'bits' in o:
@@ -708,7 +710,7 @@ def show(t, depth=0, maxdepth=7):
     if k == 'const':
         if t[3]:
             return t[3].split('::')[-1]
-        return repr(t[2]) if not isinstance(t[2], str) or len(t[2]) < 30 else repr(t[2][:27] + '...')
+        return repr(t[2]) if not isinstance(t[2], str) or len(t[2]) < 70 else repr(t[2][:67] + '...')
     if k == 'call':
         return '%s(%s)' % (cname(t[1]), ', '.join(show(x, depth + 1, maxdepth) for x in t[2:]))
     if k == 'bin':
